@@ -216,34 +216,44 @@ def run(ck):
                 okc = conv and dict(a_t[3]).get("resolution") == V("resolution") and dict(a_t[3]).get("start") == V("correlationStart")
                 ck.judge(bool(okc), "C16.2", short(cp) + f":{name}-conversion", w,
                          f"{name} coordinates are converted with the correlation's resolution and window start", found=T.show(a_t)[:160])
-        sel = idxs[0][1]
-        tv = pa.facts.get(guard)
-        if tv is None:
+        sel0 = idxs[0][1]
+        tv0 = pa.facts.get(guard)
+        if tv0 is None:
             pg, pol = T.positive(guard)
-            tv = pa.facts.get(pg)
-            tv = (tv == pol) if tv is not None else None
-        if tv is True:
-            n_sel += 1
-            r = _largest_k_indices(sel, heights, k)
-            if r is None:
-                raise AnalysisError(f"{w}: top-N index selection idiom not recognised: {T.show(sel)[:200]}")
-            ck.judge(r, "C16.1", short(cp) + ":top-n", w, "under peaksCount < size the indices of the peaksCount largest heights are kept",
-                     found=T.show(sel)[:200], required="argpartition(-heights, peaksCount)[:peaksCount] (or argsort equivalent)")
-        elif tv is False:
-            full = sel == T.mk_call("numpy.arange", [size]) or sel == ("slice", T.NONE, T.NONE, T.NONE, T.NONE)
-            ck.judge(full, "C16.1", short(cp) + ":all-peaks", w, "with at most peaksCount peaks every peak is kept",
-                     found=T.show(sel)[:120], required="arange(size)")
-        else:
-            conds = [T.show(c) for c, _, _ in pa.state.assumptions]
-            if conds:
-                ck.violation("C16.1", short(cp) + ":guard", w, "the top-N selection is not guarded by `peaksCount < number of peaks`",
-                             found="; ".join(conds), required=T.show(guard))
-            else:
+            tv0 = pa.facts.get(pg)
+            tv0 = (tv0 == pol) if tv0 is not None else None
+        cases = [(sel0, tv0)]
+        if tv0 is None and sel0[0] == "select":
+            # the guard is written as a conditional expression: one case per arm
+            c = sel0[1]
+            pc, polc = T.positive(c)
+            pg, polg = T.positive(guard)
+            if pc == pg:
+                same = polc == polg
+                cases = [(sel0[2], True if same else False), (sel0[3], False if same else True)]
+        for sel, tv in cases:
+            if tv is True:
+                n_sel += 1
                 r = _largest_k_indices(sel, heights, k)
                 if r is None:
-                    raise AnalysisError(f"{w}: unguarded peak selection not recognised: {T.show(sel)[:160]}")
-                ck.violation("C16.1", short(cp) + ":guard", w, "argpartition is used without the `peaksCount < size` guard (raises when "
-                             "there are fewer peaks than requested)", found=T.show(sel)[:160], required=T.show(guard))
+                    raise AnalysisError(f"{w}: top-N index selection idiom not recognised: {T.show(sel)[:200]}")
+                ck.judge(r, "C16.1", short(cp) + ":top-n", w, "under peaksCount < size the indices of the peaksCount largest heights are kept",
+                         found=T.show(sel)[:200], required="argpartition(-heights, peaksCount)[:peaksCount] (or argsort equivalent)")
+            elif tv is False:
+                full = sel == T.mk_call("numpy.arange", [size]) or sel == ("slice", T.NONE, T.NONE, T.NONE, T.NONE)
+                ck.judge(full, "C16.1", short(cp) + ":all-peaks", w, "with at most peaksCount peaks every peak is kept",
+                         found=T.show(sel)[:120], required="arange(size)")
+            else:
+                conds = [T.show(c) for c, _, _ in pa.state.assumptions]
+                if conds:
+                    ck.violation("C16.1", short(cp) + ":guard", w, "the top-N selection is not guarded by `peaksCount < number of peaks`",
+                                 found="; ".join(conds), required=T.show(guard))
+                else:
+                    r = _largest_k_indices(sel, heights, k)
+                    if r is None:
+                        raise AnalysisError(f"{w}: unguarded peak selection not recognised: {T.show(sel)[:160]}")
+                    ck.violation("C16.1", short(cp) + ":guard", w, "argpartition is used without the `peaksCount < size` guard (raises when "
+                                 "there are fewer peaks than requested)", found=T.show(sel)[:160], required=T.show(guard))
     if n_sel == 0 and not any(o.rule == "C16.1" and o.status == "VIOLATION" for o in ck.obligations):
         raise AnalysisError(f"{cp.where}: no path of createPeaks selects the top peaks under a `peaksCount < size` guard")
 
